@@ -134,6 +134,36 @@ def _no_narrowing(ctx, res):
     r2.check_no_operand_narrowing(ctx, res)
 
 
+def _filtered(fn, keep, name, clause):
+    """run a rule on a scratch result and take over only the findings `keep` selects (their instances count as obligations)"""
+    from . import core
+
+    def f(ctx, res):
+        sub = core.Result()
+        fn(ctx, sub)
+        kept = [x for x in sub.findings if keep(x)]
+        res.obligations += max(1, len(kept))
+        if kept:
+            res.findings.extend(kept)
+        else:
+            res.discharged += 1
+        res.clause(clause)
+
+    f.__name__ = name
+    return f
+
+
+# side effects inside debug-only code (a call folded into debug_assert!): the release build skips the work - reported under
+# the arithmetic property whose code it is, not only under C14/C16
+_debug_effects = _filtered(r3.check_inventory, lambda x: x.rule == "R6d-debug-effect", "check_inventory_debug_effects", "R6d: debug-only code (debug_assert! and friends) in this property's functions has no effect on program state, so release and debug builds do the same work")
+# a checked negation of a signed primitive that the reviewed tree does not have is a panic only overflow-checking builds have
+_overflow_neg_sites = _filtered(r3.check_panic_site_table, lambda x: x.key.endswith("|checked-negation|OverflowNeg") or "OverflowNeg" in x.key, "check_panic_site_table_overflow_neg", "R3c (C16 form): no new overflow-checked negation of a signed primitive (a panic that only builds with overflow checks have)")
+
+
+# a std/no_std-dependent value that reaches a parsed or printed result makes the conversion wrong in one configuration
+_cfg_values = _filtered(r6.check_cfg_taint, lambda x: x.rule == "R6c-cfg-value-reaches-result", "check_cfg_taint_values", "R6c (scoped): in this property's functions a value computed differently with and without std reaches only capacity estimates or a Newton initial guess, never the result")
+
+
 def count_ok(*files, floor=1):
     return r2.check_no_count_narrowing(tuple("src/" + f for f in files), floor)
 
@@ -143,7 +173,7 @@ T_R3 = "CFG dominance / guard-or-forward analysis over MIR in dev and release co
 
 PROPS = {
     "C01": {
-        "clauses": [fam("Add", "Sub"), signed("Add", "Sub"), both(r3.check_underflow_asserts), r3.check_checked_sub, r3.check_add2_carry_used, r3.check_underflow_check_sees_all_digits, r3.check_panic_site_table, r4.check_block_loops, r4.check_block_loop_callers, r5check.check_arithmetic({"Add", "Sub"}, 30), count_ok("biguint/addition.rs", "biguint/subtraction.rs", "bigint/addition.rs", "bigint/subtraction.rs", floor=70), r1.check_biguint_normal_form, r5check.check_division_methods, r1.check_no_constant_cut, r3.check_digit_step_checked, selftest("R1-constant-cut", "R2-count-narrowed", "R3c-digit-step"), r3.check_operand_overflow, selftest("R3c-operand-overflow", "R3c-operand-overflow-abs")],
+        "clauses": [fam("Add", "Sub"), signed("Add", "Sub"), both(r3.check_underflow_asserts), r3.check_checked_sub, r3.check_add2_carry_used, r9.check_carry_exits, selftest("R9-carry-exit"), r3.check_underflow_check_sees_all_digits, r3.check_panic_site_table, r4.check_block_loops, r4.check_block_loop_callers, r5check.check_arithmetic({"Add", "Sub"}, 30), count_ok("biguint/addition.rs", "biguint/subtraction.rs", "bigint/addition.rs", "bigint/subtraction.rs", floor=70), r1.check_biguint_normal_form, r5check.check_division_methods, r1.check_no_constant_cut, r3.check_digit_step_checked, selftest("R1-constant-cut", "R2-count-narrowed", "R3c-digit-step"), r3.check_operand_overflow, selftest("R3c-operand-overflow", "R3c-operand-overflow-abs")],
         "not_decided": "the digit arithmetic itself: adc/sbb of the scalar tail, how far a carry or borrow ripples into the longer operand, result growth (a seeded lost "
         "ripple inside `&a - b` is not detected)",
         "level_text": "Decides structural necessary conditions for every input: the two x86_64 block loops are well-formed carry chains (template data flow, addressing, "
@@ -156,7 +186,7 @@ PROPS = {
         "inline-asm template data-flow analysis; abstract interpretation over the sign domain with polynomial result terms",
     },
     "C02": {
-        "clauses": [fam("Mul"), signed("Mul"), both(r3.check_underflow_asserts), r3.check_add2_carry_used, r8.check_cost_general, r8.check_shorter_first, r5check.check_arithmetic({"Mul"}, 15), count_ok("biguint/multiplication.rs", "bigint/multiplication.rs", floor=40), r1.check_biguint_normal_form, r5check.check_division_methods, selftest("R2-count-narrowed"), r3.check_panic_site_table, r3.check_operand_overflow, selftest("R3c-operand-overflow", "R3c-operand-overflow-abs")],
+        "clauses": [fam("Mul"), signed("Mul"), both(r3.check_underflow_asserts), r3.check_add2_carry_used, r9.check_carry_exits, r8.check_cost_general, r8.check_shorter_first, r5check.check_arithmetic({"Mul"}, 15), count_ok("biguint/multiplication.rs", "bigint/multiplication.rs", floor=40), r1.check_biguint_normal_form, r5check.check_division_methods, selftest("R2-count-narrowed"), r3.check_panic_site_table, r3.check_operand_overflow, selftest("R3c-operand-overflow", "R3c-operand-overflow-abs")],
         "not_decided": "temporary sizing, the Karatsuba/Toom-3 algebra (evaluation points, interpolation), mac_with_carry arithmetic, the low-zero stripping arithmetic (all "
         "value-level)",
         "level_text": "Decides: all Mul operator forms forward (operands in either order only because * is commutative) or are reviewed implementations with the sign table "
@@ -167,7 +197,7 @@ PROPS = {
         "reachability); abstract interpretation over the sign domain",
     },
     "C03": {
-        "clauses": [fam("Div", "Rem"), signed("Div", "Rem"), both(r3.check_div_guards), r3.check_checked_div, r3.check_division_sites, r5check.check_arithmetic({"Div", "Rem"}, 30), r5check.check_division_methods, count_ok("biguint/division.rs", "bigint/division.rs", floor=90), r1.check_biguint_normal_form, selftest("R2-count-narrowed"), r3.check_panic_site_table, r3.check_operand_overflow, selftest("R3c-operand-overflow", "R3c-operand-overflow-abs")],
+        "clauses": [fam("Div", "Rem"), signed("Div", "Rem"), both(r3.check_div_guards), r3.check_checked_div, r3.check_division_sites, r5check.check_arithmetic({"Div", "Rem"}, 30), r5check.check_division_methods, count_ok("biguint/division.rs", "bigint/division.rs", floor=90), r1.check_biguint_normal_form, selftest("R2-count-narrowed"), r3.check_panic_site_table, r3.check_operand_overflow, selftest("R3c-operand-overflow", "R3c-operand-overflow-abs"), _debug_effects],
         "not_decided": "Knuth algorithm D (trial digit, add-back), normalisation shifts, the single-digit division loops",
         "level_text": "Decides for every input: each of the ~390 division-family functions either tests its divisor for zero with a release-mode panic before any division "
         "work or forwards the divisor to another division function; the 9 checked division functions return None on the zero edge and reach a division only "
@@ -203,7 +233,7 @@ PROPS = {
         "technique": T_R3 + " (validation order); const-evaluated static tables read from the compiler; MIR argument-provenance tables; normal-form escape analysis",
     },
     "C07": {
-        "clauses": [guards("shift"), fam("Shl", "Shr", "BitAnd", "BitOr", "BitXor"), r5check.check_helpers, r5check.check_shifts, r5check.check_bitops, count_ok("biguint/shift.rs", "bigint/shift.rs", "biguint/bits.rs", "bigint/bits.rs", "biguint.rs", "bigint.rs", floor=100), r1.check_biguint_normal_form, selftest("R2-count-narrowed"), r3.check_panic_site_table, r3.check_shift_amount_range, selftest("R3c-shift-range")],
+        "clauses": [guards("shift"), fam("Shl", "Shr", "BitAnd", "BitOr", "BitXor"), r5check.check_helpers, r5check.check_shifts, r5check.check_bitops, r9.check_carry_exits, selftest("R9-carry-exit"), count_ok("biguint/shift.rs", "bigint/shift.rs", "biguint/bits.rs", "bigint/bits.rs", "biguint.rs", "bigint.rs", floor=100), r1.check_biguint_normal_form, selftest("R2-count-narrowed"), r3.check_panic_site_table, r3.check_shift_amount_range, selftest("R3c-shift-range")],
         "not_decided": "running two's-complement carries and result lengths inside the nine bit helpers, intra-digit shift arithmetic, bit queries (bit, trailing_zeros, "
         "count_ones) and set_bit's digit arithmetic",
         "level_text": "Decides: the negative-shift panic precedes everything else in biguint_shl/biguint_shr in release builds (comparison against T::zero() on the shift "
@@ -246,7 +276,7 @@ PROPS = {
         "technique": "interprocedural field read-set analysis over MIR (necessity rule)",
     },
     "C10": {
-        "clauses": [_c10_forwarders, _c10_signed, _c10_folds, _no_narrowing, r3.check_panic_site_table, both(r3.check_underflow_asserts), r3.check_add2_carry_used, r5check.check_arithmetic(None, 85), r5check.check_powers, r5check.check_upow, r3.check_operand_overflow, r5check.check_shifts, r5check.check_bitops, r5check.check_division_methods, r5check.check_roots, r5check.check_modular, r1.check_no_constant_cut, selftest("R2-operand-narrowed", "R3c-operand-overflow", "R3c-operand-overflow-abs", "R1-constant-cut", "R3c-digit-step"), both(r3.check_div_guards), r3.check_digit_step_checked, r1.check_biguint_normal_form],
+        "clauses": [_c10_forwarders, _c10_signed, _c10_folds, _no_narrowing, r3.check_panic_site_table, both(r3.check_underflow_asserts), r3.check_add2_carry_used, r9.check_carry_exits, r5check.check_arithmetic(None, 85), r5check.check_powers, r5check.check_upow, r3.check_operand_overflow, r5check.check_shifts, r5check.check_bitops, r5check.check_division_methods, r5check.check_roots, r5check.check_modular, r1.check_no_constant_cut, selftest("R2-operand-narrowed", "R3c-operand-overflow", "R3c-operand-overflow-abs", "R1-constant-cut", "R3c-digit-step"), both(r3.check_div_guards), r3.check_digit_step_checked, r1.check_biguint_normal_form],
         "not_decided": "digit splitting/padding inside the unsigned scalar leaves and the digit arithmetic of the leaf implementations; an operator impl that is "
         "neither a forwarder nor in the reviewed table, and a signed leaf whose body leaves the interpreter's language, are listed as undecided (notes), not shown",
         "level_text": "Every one of the ~1286 operator impl bodies is classified from its MIR: ~970 are proven pure forwarders (operands reach the callee in order - swapped "
@@ -277,7 +307,7 @@ PROPS = {
         "technique": "MIR dataflow over operator impls + abstract interpretation over the sign/parity domain",
     },
     "C13": {
-        "clauses": [r3.check_division_sites, r3.check_gcd_zero_cases, r3.check_gcd_nonzero_at_shift, r5check.check_helpers, count_ok("biguint.rs", "bigint.rs", floor=100), r1.check_biguint_normal_form, selftest("R2-count-narrowed"), r3.check_panic_site_table],
+        "clauses": [r3.check_division_sites, r3.check_gcd_zero_cases, r3.check_gcd_nonzero_at_shift, r5check.check_helpers, count_ok("biguint.rs", "bigint.rs", floor=100), r1.check_biguint_normal_form, selftest("R2-count-narrowed"), r3.check_panic_site_table, r3.check_digit_step_checked, selftest("R3c-digit-step"), _debug_effects],
         "not_decided": "Stein's algorithm (common power of two, subtraction loop), num-integer's generic extended_gcd loop itself, arithmetic of the multiple-of helpers",
         "level_text": "Decides: gcd returns the other operand when one is zero before Stein's loop; lcm / gcd_lcm / extended_gcd_lcm divide only by a gcd shown non-zero by a "
         "dominating test (own zero test, or the joint zero test of exactly the gcd's two arguments); BigInt::extended_gcd_lcm returns (g, x, y, l) with a*x + "
@@ -321,7 +351,7 @@ PROPS = {
         "technique": "inline-asm template data-flow analysis (reaching definitions over the instruction list) + MIR def-use/dominance at the call sites; closed-world unsafe inventory",
     },
     "C16": {
-        "clauses": [r6.check_matrix, r6.check_feature_stability, r6.check_cfg_taint, r3.check_inventory, profile_diff(_guard_table, "r3_guards_profile_diff"), profile_diff(r3.check_underflow_asserts), profile_diff(r3.check_radix), profile_diff(r3.check_div_guards), r3.check_operand_overflow, r3.check_digit_step_checked, selftest("R3c-operand-overflow", "R3c-operand-overflow-abs", "R3c-digit-step"), r3.check_float_guess_guard, r3.check_shift_amount_range, selftest("R3c-shift-range")],
+        "clauses": [r6.check_matrix, r6.check_feature_stability, r6.check_cfg_taint, r3.check_inventory, profile_diff(_guard_table, "r3_guards_profile_diff"), profile_diff(r3.check_underflow_asserts), profile_diff(r3.check_radix), profile_diff(r3.check_div_guards), r3.check_operand_overflow, r3.check_digit_step_checked, selftest("R3c-operand-overflow", "R3c-operand-overflow-abs", "R3c-digit-step"), r3.check_float_guess_guard, r3.check_shift_amount_range, selftest("R3c-shift-range"), _overflow_neg_sites],
         "not_decided": "equality of results where it rests on arithmetic (Newton fixpoint independent of the guess; float helper agreement; absence of overflow so that "
         "overflow-check and wrapping builds agree); the 32-bit-digit variants of the code are analysed through an i686 build (-Zbuild-std): one configuration in the quick tier, all in the thorough tier",
         "level_text": "Decides: all ten documented feature configurations type-check (and the i686 / 32-bit-digit build does); enabling serde/rand/quickcheck/arbitrary "
@@ -333,7 +363,7 @@ PROPS = {
         "technique": "type checking of the 10-configuration matrix; canonical MIR fingerprints across 4 fact configurations; cfg-taint (cross-config line diff + forward dataflow); dev-vs-release inventory; guard rules read differentially between the dev and release profiles",
     },
     "C17": {
-        "clauses": [r7.check_serde_tables, r6.check_feature_stability, r1.check_biguint_normal_form, r7.check_serde_hint_confined, r7.check_serde_declared_length, r7.check_serde_zero_is_empty],
+        "clauses": [r7.check_serde_tables, r6.check_feature_stability, r1.check_biguint_normal_form, r7.check_serde_hint_confined, r7.check_serde_declared_length, r7.check_serde_zero_is_empty, r3.check_operand_overflow, selftest("R3c-operand-overflow", "R3c-operand-overflow-abs")],
         "not_decided": "the u64 -> (lo, hi) split arithmetic of the emitted elements and the pair re-join in the visitor",
         "level_text": "Decides: Sign serialises as the i8 -1/0/1 and deserialises by the inverse table with an Err arm for every other byte (switch targets and promoted "
         "constants read from MIR); BigInt <-> the pair (sign, magnitude) in this order, rebuilt through the canonicalising from_biguint; deserialised BigUint "
@@ -344,7 +374,7 @@ PROPS = {
         "must-pass-through canonicalisation; cross-configuration MIR fingerprints",
     },
     "C19": {
-        "clauses": [r5check.check_helpers, r5check.check_constructors, r5check.check_conversions],
+        "clauses": [r5check.check_helpers, r5check.check_constructors, r5check.check_conversions, r1.check_biguint_normal_form, r1.check_no_constant_cut, selftest("R1-constant-cut")],
         "not_decided": "is_zero <=> empty digit vector relies on the canonical-form invariant (R1, claimed under C04); from_biguint's own body (calls into digit-level code) "
         "is used as a model, its table is checked separately",
         "level_text": "Decides essentially the whole property, because it is finite: an abstract interpreter enumerates every sign case (and order / zero-ness case on demand) of "
@@ -372,6 +402,14 @@ PROPS = {
         "technique": T_R3 + "; CFG/loop-structure and argument-provenance analysis of the samplers",
     },
 }
+
+# the arithmetic kernels share the rule that debug-only code must be effect free (a seeded `debug_assert!(borrow - __add2(..) == a0)`
+# in div_rem_core made the release build skip the add-back: reported under the division property too, by scope)
+for _p in ("C01", "C02", "C05"):
+    PROPS[_p]["clauses"].append(_debug_effects)
+# the two places where the crate computes something differently without std: the size estimate of the radix parser, the roots' guess
+for _p in ("C06", "C11"):
+    PROPS[_p]["clauses"].append(_cfg_values)
 
 
 portable(
